@@ -39,6 +39,7 @@ type draft struct {
 	host    string
 	http10  bool
 	muts    []string
+	tags    []string // optional parts drawn out of their natural context (not mutations: the request stays as valid as drawn)
 }
 
 const assertionType = oidc.ClientAssertionTypeJWTAssertion
@@ -111,7 +112,7 @@ func (d *draft) render(x *world) *Req {
 		}
 		target += sep + qp.urlencoded()
 	}
-	q := &Req{Method: d.method, Target: Lit(target), Host: Lit(d.host), Proto10: d.http10, Op: d.op, Muts: d.muts}
+	q := &Req{Method: d.method, Target: Lit(target), Host: Lit(d.host), Proto10: d.http10, Op: d.op, Muts: d.muts, Tags: d.tags}
 	if len(bp) > 0 || d.ctype == "json" || strings.HasPrefix(d.ctype, "multipart") {
 		switch d.ctype {
 		case "", "form":
@@ -239,16 +240,48 @@ func (x *world) newDraft(op, method, endpoint string) *draft {
 
 // freshOrPooled returns a value of kind bound to client c, minting a new one through a live flow with probability
 // num/den (consumable values are otherwise mostly stale) and falling back to anything in the pool.
-func (x *world) codeFor(c *vclient.Client) item {
-	if chance(x.r, 1, 2) {
+func (x *world) codeFor(c *vclient.Client) (it item, fresh bool) {
+	if chance(x.r, 2, 3) {
 		if it, _ := x.mintCode(c, pick(x.r, "openid", "openid profile offline_access"), "code", true, ""); it.Val != "" {
-			return it
+			return it, true
 		}
 	}
 	if it, ok := x.of("code", c.ID); ok && chance(x.r, 2, 3) {
-		return it
+		return it, false
 	}
-	return x.any("code")
+	return x.any("code"), false
+}
+
+// verifierFor draws the code_verifier of a code exchange independently of whether the code was bound to a PKCE
+// challenge: half of the time the natural one (the right verifier for a PKCE code, none otherwise), else one of
+// {absent, right, wrong, the challenge string itself, empty, 1 char, 200 chars}.
+func (x *world) verifierFor(it item) (kind, val string, send bool) {
+	if chance(x.r, 1, 2) {
+		return "natural", it.Verifier, it.Verifier != ""
+	}
+	right := it.Verifier
+	if right == "" {
+		right = "verifier-000000-0123456789-0123456789-0123456789"
+	}
+	switch kind = pick(x.r, "absent", "right", "wrong", "challenge-itself", "empty", "one-char", "200-chars"); kind {
+	case "absent":
+		return kind, "", false
+	case "right":
+		return kind, right, true
+	case "wrong":
+		return kind, "wrong-verifier-0123456789-0123456789-0123456789-0", true
+	case "challenge-itself":
+		ch := it.Challenge
+		if ch == "" {
+			ch = opdrv.S256(right)
+		}
+		return kind, ch, true
+	case "empty":
+		return kind, "", true
+	case "one-char":
+		return kind, "v", true
+	}
+	return kind, strings.Repeat("V", 200), true
 }
 
 func (x *world) refreshFor(c *vclient.Client) item {
@@ -289,13 +322,38 @@ func (x *world) tmplToken(grant string) *draft {
 	switch grant {
 	case "authorization_code":
 		c := x.client(codeClients...)
-		it := x.codeFor(c)
+		it, fresh := x.codeFor(c)
 		d.params.add("code", it.Val)
-		d.params.add("redirect_uri", it.Redirect)
-		if it.Verifier != "" {
-			d.params.add("code_verifier", it.Verifier)
+		switch r.IntN(12) {
+		case 0:
+			d.tags = append(d.tags, "redirect_uri:absent")
+		case 1:
+			other := it.Redirect
+			if oc := x.cl[it.Client]; oc != nil {
+				other = oc.Redirects[r.IntN(len(oc.Redirects))]
+			}
+			d.params.add("redirect_uri", other)
+			d.tags = append(d.tags, "redirect_uri:any-registered")
+		default:
+			d.params.add("redirect_uri", it.Redirect)
 		}
-		if oc := x.cl[it.Client]; oc != nil && chance(r, 5, 6) {
+		vk, vv, send := x.verifierFor(it)
+		if send {
+			d.params.add("code_verifier", vv)
+		}
+		pk := "no-pkce"
+		if it.Challenge != "" {
+			pk = "pkce-" + it.Method
+		}
+		fr := "pooled"
+		if fresh {
+			fr = "fresh"
+		}
+		d.tags = append(d.tags, "verifier:"+vk+":"+pk+":"+fr)
+		if send && vv != "" && it.Challenge == "" && fresh {
+			d.tags = append(d.tags, "stray-verifier-on-fresh-non-pkce-code")
+		}
+		if oc := x.cl[it.Client]; oc != nil && (fresh || chance(r, 5, 6)) {
 			c = oc
 		}
 		d.auth = x.authOf(c)
@@ -336,7 +394,11 @@ func (x *world) tmplToken(grant string) *draft {
 	case string(oidc.GrantTypeTokenExchange):
 		c := x.client("web", "web2", "all", "all", "svc", "jwt", "post")
 		tok, typ := x.anyToken()
-		d.params.add("subject_token", tok)
+		if chance(r, 1, 12) {
+			d.tags = append(d.tags, "subject_token:absent") // type / requested type without the token they describe
+		} else {
+			d.params.add("subject_token", tok)
+		}
 		if !chance(r, 1, 8) {
 			typ2 := typ
 			if chance(r, 1, 5) {
@@ -350,6 +412,9 @@ func (x *world) tmplToken(grant string) *draft {
 			if chance(r, 4, 5) {
 				d.params.add("actor_token_type", atyp)
 			}
+		} else if chance(r, 1, 8) {
+			d.params.add("actor_token_type", pick(r, tokenTypes...))
+			d.tags = append(d.tags, "actor_token_type:without-actor_token")
 		}
 		if chance(r, 2, 3) {
 			d.params.add("requested_token_type", pick(r, tokenTypes...))
@@ -387,6 +452,18 @@ func (x *world) tmplToken(grant string) *draft {
 			d.params.del("grant_type")
 		}
 	}
+	// parameters of *other* grants (and stray credential parts) with valid values, next to an otherwise valid request
+	if chance(r, 1, 5) {
+		for i, n := 0, 1+r.IntN(3); i < n; i++ {
+			name := pick(r, "code", "code_verifier", "redirect_uri", "refresh_token", "device_code", "assertion", "subject_token", "subject_token_type",
+				"actor_token", "actor_token_type", "requested_token_type", "scope", "client_assertion_type", "token", "token_type_hint", "access_token", "id_token_hint", "request")
+			if d.params.has(name) {
+				continue
+			}
+			d.params.add(name, x.validFor(name))
+			d.tags = append(d.tags, "cross-grant:"+name)
+		}
+	}
 	return d
 }
 
@@ -412,9 +489,16 @@ func (x *world) tmplAuthorize() *draft {
 	if chance(r, 1, 3) {
 		d.params.add("response_mode", pick(r, respModes...))
 	}
-	if chance(r, 1, 3) {
+	switch r.IntN(9) {
+	case 0, 1, 2:
 		d.params.add("code_challenge", opdrv.S256("verifier-fuzz-0123456789-0123456789-0123456789"))
 		d.params.add("code_challenge_method", pick(r, "S256", "S256", "plain", "s256", ""))
+	case 3:
+		d.params.add("code_challenge", opdrv.S256("verifier-fuzz-0123456789-0123456789-0123456789"))
+		d.tags = append(d.tags, "code_challenge:without-method")
+	case 4:
+		d.params.add("code_challenge_method", pick(r, "S256", "plain"))
+		d.tags = append(d.tags, "code_challenge_method:without-challenge")
 	}
 	if chance(r, 1, 4) {
 		d.params.add("prompt", pick(r, prompts...))
@@ -716,6 +800,9 @@ func (x *world) genDraft() *draft {
 	switch {
 	case n < 40:
 		g := pick(x.r, grantTypes[:6]...)
+		if chance(x.r, 1, 7) {
+			g = "authorization_code" // twice the weight: its verifier x PKCE-class grid is the largest template space
+		}
 		if chance(x.r, 1, 8) {
 			g = pick(x.r, grantTypes[6:]...)
 		}
@@ -770,7 +857,7 @@ func (x *world) authShape(d *draft) string {
 	shapes := []string{"basic-badpct-secret", "basic-badpct-id", "basic-badpct-both", "basic-badb64", "basic-nocolon", "basic-empty", "basic-bare", "basic-emptycreds", "basic-nul",
 		"basic-lower", "basic-pct-binary", "basic-unescaped", "basic-wrongsecret", "basic-unknown-client", "basic-other-client", "basic-valid", "bearer-garbage", "bearer-bare", "bearer-double",
 		"bearer-valid", "double-header", "huge", "digest", "bad-utf8", "post-wrongsecret", "post-valid", "post-and-basic-conflict", "assertion-expired", "assertion-wrong-aud",
-		"assertion-wrong-key", "assertion-garbage", "assertion-forged", "assertion-type-wrong", "assertion-no-type", "assertion-and-basic", "idonly", "none", "basic-badpct-secret", "basic-badpct-id"}
+		"assertion-wrong-key", "assertion-garbage", "assertion-forged", "assertion-type-wrong", "assertion-no-type", "assertion-and-basic", "assertion-type-only", "assertion-empty-with-type", "basic-plus-same-client-id", "stray-secret", "idonly", "none", "basic-badpct-secret", "basic-badpct-id"}
 	s := shapes[r.IntN(len(shapes))]
 	switch s {
 	case "basic-badpct-secret":
@@ -847,6 +934,14 @@ func (x *world) authShape(d *draft) string {
 		d.auth = authSpec{kind: "assertion", id: "jwt", assertion: x.assertion("jwt", "jwt", x.issuerFor(x.host), 0), atype: "-"}
 	case "assertion-and-basic":
 		d.auth = authSpec{kind: "raw", raw: []string{"Basic " + valid}, also: plist{{k: "client_assertion", v: x.assertion("jwt", "jwt", x.issuerFor(x.host), 0)}, {k: "client_assertion_type", v: assertionType}}}
+	case "assertion-type-only":
+		d.auth.also = append(d.auth.also, kv{k: "client_assertion_type", v: assertionType})
+	case "assertion-empty-with-type":
+		d.auth.also = append(d.auth.also, kv{k: "client_assertion", v: ""}, kv{k: "client_assertion_type", v: assertionType})
+	case "basic-plus-same-client-id":
+		d.auth = authSpec{kind: "basic", id: id, secret: secret, also: plist{{k: "client_id", v: id}}}
+	case "stray-secret":
+		d.auth.also = append(d.auth.also, kv{k: "client_secret", v: pick(r, secret, "stray-secret", "")})
 	case "idonly":
 		d.auth = authSpec{kind: "idonly", id: id}
 	case "none":
